@@ -273,6 +273,68 @@ Fixpoint mmerge (sched : list bool) (t u : list mact) : list mact :=
 Definition prog_T (s : list Z) : list mact := [TCheck; TFeed s].
 Definition prog_U : list mact := [UFlag; UEmpty; URefeed].
 
+(* merge of two programs chosen by a schedule (true = first program moves) *)
+Fixpoint mmerge_gen {A} (sched : list bool) (t u : list A) : list A :=
+  match sched with
+  | [] => t ++ u
+  | true :: r => match t with a :: t' => a :: mmerge_gen r t' u | [] => mmerge_gen r t u end
+  | false :: r => match u with a :: u' => a :: mmerge_gen r t u' | [] => mmerge_gen r t u end
+  end.
+
+(* ---- exit status at statement granularity ---------------------------------------------- *)
+(* _handle_request("exit-status") is two statements on the transport thread,
+       self.exit_status = m.get_int()      [XStore n]
+       self.status_event.set()             [XSet]
+   and recv_exit_status() on a user thread is
+       self.status_event.wait()            [RWait: enabled only once the event is set]
+       return self.exit_status             [RRead]
+   with no lock in common.  [xstep] returns None when the action is not enabled (the reader is
+   still blocked).  The main model's one-step ExitStatus handler is justified by the theorem
+   that every merge of the two programs reports n (store before set). *)
+Record xstate := mkX { x_exit : Z; x_set : bool; x_result : option Z }.
+Inductive xact := XStore (n : Z) | XSet | RWait | RRead.
+Definition xstep (s : xstate) (a : xact) : option xstate :=
+  match a with
+  | XStore n => Some (mkX n (x_set s) (x_result s))
+  | XSet => Some (mkX (x_exit s) true (x_result s))
+  | RWait => if x_set s then Some s else None
+  | RRead => Some (mkX (x_exit s) (x_set s) (Some (x_exit s)))
+  end.
+Fixpoint xrun (s : xstate) (l : list xact) : option xstate :=
+  match l with
+  | [] => Some s
+  | a :: r => match xstep s a with Some s' => xrun s' r | None => None end
+  end.
+Definition xinit (old : Z) : xstate := mkX old false None.
+Definition prog_handler (n : Z) : list xact := [XStore n; XSet].          (* the code as it is *)
+Definition prog_handler_swapped (n : Z) : list xact := [XSet; XStore n].  (* set before store *)
+Definition prog_reader : list xact := [RWait; RRead].
+
+(* ---- sender side with the window: _wait_for_send_window + sendall ------------------------- *)
+(* one send(): size = min(len, window); size = min(size, max_packet - 64); window -= size.
+   Returns (bytes sent, new window).  window = 0 means "would block". *)
+Definition send_size (len w p : Z) : Z * Z :=
+  let size := if w <? len then w else len in
+  let size := if p - 64 <? size then p - 64 else size in
+  (size, w - size).
+(* sendall with the window not replenished meanwhile: stops when the window is used up.
+   Returns payloads, unsent rest, final window. *)
+Fixpoint sendall_win (fuel : nat) (w p : Z) (s : list Z) : list (list Z) * list Z * Z :=
+  match fuel with
+  | O => ([], s, w)
+  | S f =>
+      match s with
+      | [] => ([], [], w)
+      | _ =>
+          if w <=? 0 then ([], s, w)
+          else let '(size, w') := send_size (Z.of_nat (length s)) w p in
+               if size <=? 0 then ([], s, w)
+               else let k := Z.to_nat size in
+                    let '(l, rest, wf) := sendall_win f w' p (skipn k s) in
+                    (firstn k s :: l, rest, wf)
+      end
+  end.
+
 (* ---- canonical encodings for the correspondence run ---------------------------------- *)
 Definition b2z (b : bool) : Z := if b then 1 else 0.
 Definition enc_event (e : event) : list Z :=
@@ -305,3 +367,16 @@ Definition run_sendall (x : list Z * list Z) : list Z :=
   let '(grants, s) := x in
   let '(l, rest) := sendall (map (fun g => Z.to_nat (Z.min (Z.max g 0) (Z.of_nat (length s)))) grants) s in
   flat_map (fun p => Z.of_nat (length p) :: p) l ++ [(-1)] ++ rest.
+
+(* exit status schedules: [who] true = the handler moves, false = the reader moves *)
+Definition run_exit (x : Z * Z * list bool) : list Z :=
+  let '(old, n, sched) := x in
+  match xrun (xinit old) (mmerge_gen sched (prog_handler n) prog_reader) with
+  | Some s => match x_result s with Some v => [1; v] | None => [2] end
+  | None => [0]
+  end.
+
+Definition run_sendall_win (x : Z * Z * list Z) : list Z :=
+  let '(w, p, s) := x in
+  let '(l, rest, wf) := sendall_win (S (length s)) w p s in
+  flat_map (fun q => Z.of_nat (length q) :: q) l ++ [(-1)] ++ rest ++ [(-2); wf].
